@@ -134,6 +134,31 @@ static void run() {
       else if (ListArray64* r = dynamic_cast<ListArray64*>(x.get())) stack.push_back(r->broadcast_tooffsets64(o));
       else if (RegularArray* r = dynamic_cast<RegularArray*>(x.get())) stack.push_back(r->broadcast_tooffsets64(o));
       else throw std::runtime_error("akrun: broadcast on a non-list node"); }
+    else if (c == "tolistoffset64") { bool z = nint() != 0; ContentPtr x = pop();
+      if (ListOffsetArray64* r = dynamic_cast<ListOffsetArray64*>(x.get())) stack.push_back(r->toListOffsetArray64(z));
+      else if (ListArray64* r = dynamic_cast<ListArray64*>(x.get())) stack.push_back(r->toListOffsetArray64(z));
+      else if (RegularArray* r = dynamic_cast<RegularArray*>(x.get())) stack.push_back(r->toListOffsetArray64(z));
+      else throw std::runtime_error("akrun: tolistoffset64 on a non-list node"); }
+    else if (c == "toregular") { ContentPtr x = pop();
+      if (ListOffsetArray64* r = dynamic_cast<ListOffsetArray64*>(x.get())) stack.push_back(r->toRegularArray());
+      else if (ListArray64* r = dynamic_cast<ListArray64*>(x.get())) stack.push_back(r->toRegularArray());
+      else if (RegularArray* r = dynamic_cast<RegularArray*>(x.get())) stack.push_back(r->toRegularArray());
+      else throw std::runtime_error("akrun: toregular on a non-list node"); }
+    else if (c == "project") { ContentPtr x = pop();
+      if (IndexedOptionArray64* r = dynamic_cast<IndexedOptionArray64*>(x.get())) stack.push_back(r->project());
+      else if (ByteMaskedArray* r = dynamic_cast<ByteMaskedArray*>(x.get())) stack.push_back(r->project());
+      else if (BitMaskedArray* r = dynamic_cast<BitMaskedArray*>(x.get())) stack.push_back(r->project());
+      else if (UnmaskedArray* r = dynamic_cast<UnmaskedArray*>(x.get())) stack.push_back(r->project());
+      else throw std::runtime_error("akrun: project on a non-option node"); }
+    else if (c == "tooption64") { ContentPtr x = pop();
+      if (ByteMaskedArray* r = dynamic_cast<ByteMaskedArray*>(x.get())) stack.push_back(r->toIndexedOptionArray64());
+      else if (BitMaskedArray* r = dynamic_cast<BitMaskedArray*>(x.get())) stack.push_back(r->toIndexedOptionArray64());
+      else if (UnmaskedArray* r = dynamic_cast<UnmaskedArray*>(x.get())) stack.push_back(r->toIndexedOptionArray64());
+      else throw std::runtime_error("akrun: tooption64 on a non-masked node"); }
+    else if (c == "tobytemask") { ContentPtr x = pop();
+      if (BitMaskedArray* r = dynamic_cast<BitMaskedArray*>(x.get())) stack.push_back(r->toByteMaskedArray());
+      else if (UnmaskedArray* r = dynamic_cast<UnmaskedArray*>(x.get())) stack.push_back(r->toByteMaskedArray());
+      else throw std::runtime_error("akrun: tobytemask on a non-masked node"); }
     else if (c == "merge") { ContentPtr b = pop(); ContentPtr a = pop(); stack.push_back(a.get()->merge(b)); }
     else if (c == "mergemany") { int64_t k = nint(); ContentPtrVec cs((size_t)k); for (int64_t j = k - 1; j >= 0; j--) cs[(size_t)j] = pop(); ContentPtr a = pop(); stack.push_back(a.get()->mergemany(cs)); }
     else if (c == "fillna") { ContentPtr v = pop(); ContentPtr a = pop(); stack.push_back(a.get()->fillna(v)); }
